@@ -479,7 +479,50 @@ def _coalesce_copies(fn):
     return changed
 
 
+def _forward_attr_stores(fn):
+    """self.a = x  (x a local bound once, `self.a` stored once): later reads of x are reads of self.a - the hoisted-attribute spelling and the attribute spelling
+    become one (the attribute is the normal form, as rules and specifications are written over attributes)."""
+    changed = False
+    params = set(A.param_names(fn))
+    ndef = {}
+    for n in A.walk_local(fn):
+        if isinstance(n, ast.Name) and isinstance(n.ctx, (ast.Store, ast.Del)):
+            ndef[n.id] = ndef.get(n.id, 0) + 1
+    attr_stores = {}
+    for n in A.walk_local(fn):
+        if isinstance(n, ast.Attribute) and isinstance(n.ctx, (ast.Store, ast.Del)):
+            d = dotted(n)
+            if d:
+                attr_stores[d] = attr_stores.get(d, 0) + 1
+    for s in list(A.walk_local(fn)):
+        if not (isinstance(s, ast.Assign) and len(s.targets) == 1 and isinstance(s.targets[0], ast.Attribute) and isinstance(s.value, ast.Name)):
+            continue
+        d = dotted(s.targets[0])
+        x = s.value.id
+        if not d or not d.startswith("self.") or d.count(".") != 1 or x in params or ndef.get(x, 0) != 1 or attr_stores.get(d, 0) != 1:
+            continue
+        if any(isinstance(a, (ast.For, ast.While, ast.AsyncFor)) for a in A.ancestors(s) if not isinstance(a, A.FUNC_TYPES)):
+            continue
+        here = A.doc_index(s)
+        for n in list(ast.walk(fn)):
+            if isinstance(n, ast.Name) and n.id == x and isinstance(n.ctx, ast.Load) and n is not s.value:
+                st = A.enclosing_stmt(n)
+                if st is None or A.enclosing_function(n) is not fn or A.doc_index(st) <= here:
+                    continue
+                n.__class__ = ast.Attribute
+                del n.id
+                n.value, n.attr, n.ctx = ast.Name(id="self", ctx=ast.Load()), d.split(".", 1)[1], ast.Load()
+                changed = True
+    if changed:
+        ast.fix_missing_locations(fn)
+        from .inline import _relink
+        _relink(fn, getattr(fn, "_parent", None), getattr(fn, "_module", None))
+    return changed
+
+
 def normalize_function(fn, max_rounds=300):
+    if _forward_attr_stores(fn):
+        pass
     changed_any = False
     for _ in range(4):
         c = _normalize_function_once(fn, max_rounds)
